@@ -82,6 +82,13 @@ pub fn gen_sources(rng: &mut Rng) -> Vec<Vec<(Vec<u8>, Vec<u8>)>> {
 }
 
 pub fn generate<W: Write>(c: &mut Cases<W>, rng: &mut Rng, thorough: bool) {
+    // freed memory is poisoned while the merger runs: a value handed out after its block was dropped shows
+    crate::alloc_track::ENABLED.store(true, std::sync::atomic::Ordering::Relaxed);
+    generate_inner(c, rng, thorough);
+    crate::alloc_track::ENABLED.store(false, std::sync::atomic::Ordering::Relaxed);
+}
+
+fn generate_inner<W: Write>(c: &mut Cases<W>, rng: &mut Rng, thorough: bool) {
     let n = if thorough { 12000 } else { 700 };
     for i in 0..n {
         let srcs = gen_sources(rng);
@@ -131,6 +138,7 @@ fn emit_case<W: Write>(c: &mut Cases<W>, rng: &mut Rng, i: usize, srcs: &Vec<Vec
         }
     }
     c.line(&match fail_at { Some(j) => format!("mf failat {}", j), None => "mf concat -".to_string() });
+    c.checkpoint();
     // path 1: stream
     let mf = LoggingConcat { calls: RefCell::new(Vec::new()), fail_at, sort: false };
     let res = catch(|| -> Result<Vec<(Vec<u8>, Vec<u8>)>, (Vec<(Vec<u8>, Vec<u8>)>, String)> {
